@@ -51,14 +51,15 @@ def layouts(draw):
     flags = {'frozen': draw(st.booleans()), 'slots': draw(st.booleans()), 'kw_only': kw_only_cls,
              'eq': draw(st.sampled_from([True, True, False]))}
     flags['order'] = flags['eq'] and draw(st.booleans())
-    return {'fields': fields, 'nbase': nbase, 'flags': flags, 'plain_base': draw(st.sampled_from([False, False, True])),
+    return {'fields': fields, 'nbase': nbase, 'flags': flags, 'plain_base': draw(st.sampled_from([False, False, True])), 'shared_md': draw(st.sampled_from([False, False, True])),
             'route': draw(st.sampled_from(['decorator', 'decorator_call', 'make_dataclass'])),
             'ns': draw(st.sampled_from(['dcns', 'dcns', 'G'])),
             'values': [draw(gen.tree_descs(4, kinds=VALUE_KINDS, leaf=LEAF, max_depth=2)) for _ in range(n)]}
 
 
-def mk_field(mod, f):
-    """field spec through optree.dataclasses.field (mod=odc) or the reference dataclasses.field"""
+def mk_field(mod, f, shared=None):
+    """field spec through optree.dataclasses.field (mod=odc) or the reference dataclasses.field;
+    shared: one metadata dict object passed to *every* field() call of the class (user-level reuse)"""
     kw = {'init': f['init']}
     if f['default'] == 'default':
         kw['default'] = 7
@@ -69,8 +70,10 @@ def mk_field(mod, f):
     if mod is odc:
         if f['pn'] is not None:
             kw['pytree_node'] = f['pn']
+        if shared is not None:
+            kw['metadata'] = shared
         return odc.field(**kw)
-    kw['metadata'] = {'pytree_node': True if f['pn'] is None else f['pn']}
+    kw['metadata'] = dict(shared or {}, pytree_node=True if f['pn'] is None else f['pn'])
     return dataclasses.field(**kw)
 
 
@@ -80,6 +83,7 @@ def build_class(mod, lay, ns_arg):
     flags = dict(lay['flags'])
     fs = lay['fields']
     nb = lay['nbase']
+    shared = {'unit': 'm'} if lay.get('shared_md') else None
 
     def post_init(self):
         type(self).POST[0] += 1
@@ -92,7 +96,7 @@ def build_class(mod, lay, ns_arg):
     bases = ()
     if nb:
         bns = {'__annotations__': {f['name']: object for f in fs[:nb]}}
-        bns.update({f['name']: mk_field(mod, f) for f in fs[:nb]})
+        bns.update({f['name']: mk_field(mod, f, shared) for f in fs[:nb]})
         # the base is a dataclass of the same family, without slots (keeps the layout legal)
         # (optionally the base is a *plain* dataclasses.dataclass that is not registered itself: its fields
         #  are inherited; fields made by dataclasses.field carry no pytree_node flag => children by default)
@@ -101,7 +105,7 @@ def build_class(mod, lay, ns_arg):
         bases = (base,)
     own = fs[nb:]
     if lay['route'] == 'make_dataclass':
-        spec = [(f['name'], object, mk_field(mod, f)) for f in own]
+        spec = [(f['name'], object, mk_field(mod, f, shared)) for f in own]
         extra = {'__post_init__': post_init, 'POST': [0]}
         if mod is odc:
             cls = odc.make_dataclass(f'G{uid}', spec, bases=bases, ns=extra, namespace=ns_arg, **flags)
@@ -109,12 +113,14 @@ def build_class(mod, lay, ns_arg):
             cls = dataclasses.make_dataclass(f'G{uid}', spec, bases=bases, namespace=extra, **flags)
     else:
         cns = {'__annotations__': {f['name']: object for f in own}, '__post_init__': post_init, 'POST': [0]}
-        cns.update({f['name']: mk_field(mod, f) for f in own})
+        cns.update({f['name']: mk_field(mod, f, shared) for f in own})
         raw = type(f'G{uid}', bases, cns)
         if lay['route'] == 'decorator_call' and mod is odc:
             cls = odc.dataclass(namespace=ns_arg, **flags)(raw)
         else:
             cls = deco(raw, **flags)
+    if shared is not None and shared != {'unit': 'm'}:
+        raise AssertionError(f'field() modified the metadata dict passed by the caller: {shared}')
     return cls, bases
 
 
